@@ -96,21 +96,26 @@ Fixpoint lookup (k : key) (s : state) : option rec :=
 Fixpoint remove_key (k : key) (s : state) : state :=
   match s with [] => [] | (k', r) :: t => if N.eqb k k' then remove_key k t else (k', r) :: remove_key k t end.
 
+(* close (idle eviction or shutdown) + re-summon: every record goes through ConvertToByte, the
+   V2 chronicler (C01: last write per key wins, deleted keys stay deleted) and LoadFromByte *)
+Definition reload (s : state) : state := map (fun p => (fst p, persist (snd p))) s.
+
 (* API operations.  C05 is indifferent to *what* an operation computes (that is C06): each
    writing operation carries the record it left behind, as observed through Get right after
    it (M2).  Set / Increment* / PatchTreasures / Uint32SlicePush / Uint32SliceDelete are all
-   [OWrite]; Delete (and a claim) is [ODelete]. *)
-Inductive op := OWrite (k : key) (r : rec) | ODelete (k : key).
+   [OWrite]; Delete, ShiftByKeys (and any claim) is [ODelete].  [OReload] is a close +
+   re-summon in the middle of the history (shutdown or idle eviction).  Write ticks of the
+   background writer (which decide whether a record is "on disk", "buffered" or both when the
+   next operation arrives) are deliberately NOT operations: the property is indifferent to
+   them, so the harness places them freely between operations. *)
+Inductive op := OWrite (k : key) (r : rec) | ODelete (k : key) | OReload.
 Definition step (s : state) (o : op) : state :=
   match o with
   | OWrite k r => (k, r) :: remove_key k s
   | ODelete k => remove_key k s
+  | OReload => reload s
   end.
 Definition run (h : list op) : state := fold_left step h [].
-
-(* close (idle eviction or shutdown) + re-summon: every record goes through ConvertToByte, the
-   V2 chronicler (C01: last write per key wins, deleted keys stay deleted) and LoadFromByte *)
-Definition reload (s : state) : state := map (fun p => (fst p, persist (snd p))) s.
 
 Definition seen (s : state) (k : key) : option view := option_map view_of (lookup k s).
 End Persist.
@@ -188,7 +193,7 @@ Definition chk (c : hcase) : N :=
       else if negb (list_eqb kv_eqb ib ia) then 6
       else
         (* replay: the history leaves [before]; the model's reload of it is [after] *)
-        let s := run ops in
+        let s := run gob_spec fixed ops in
         let s' := reload gob_spec fixed s in
         if forallb (fun p => oview_eqb (snd p) (seen s (fst p))) before &&
            forallb (fun p => oview_eqb (snd p) (seen s' (fst p))) after &&
